@@ -1,6 +1,7 @@
 package main
 
 import (
+	"fmt"
 	"math/rand"
 	"strings"
 )
@@ -45,6 +46,11 @@ func init() {
 					cases = append(cases, Case{"key": k, "chain": ch})
 				}
 			}
+			// chains longer than any line or token buffer (run-length encoded for the spec; one argument cannot exceed 128 KiB)
+			for i, rr := range [][][]any{{{"d", 65536}}, {{"d", 65537}}, {{"s", 70001}}, {{"p", 65535}, {"d", 3}}, {{"d", 4099}, {"r", 1}, {"s", 4099}}, {{"r", 130001}},
+				{{"d", 32768}, {"p", 1}, {"d", 32768}}, {{"s", 60000}, {"p", 60001}}, {{"d", 1023}}, {{"d", 1025}, {"r", 1}}} {
+				cases = append(cases, Case{"key": supportedKeys[(i*5)%28], "runs": rr}, Case{"key": supportedKeys[(i*11+3)%28], "runs": rr})
+			}
 			for i := 0; i < nrand; i++ {
 				n := maxLen + 1 + rng.Intn(maxRand-maxLen)
 				var sb strings.Builder
@@ -56,6 +62,24 @@ func init() {
 			return cases
 		},
 		Exec: func(c *Ctx, k Case) []Rec {
+			if k["runs"] != nil {
+				var runs [][]any
+				remarshal(k["runs"], &runs)
+				var sb strings.Builder
+				for _, rn := range runs {
+					n, _ := rn[1].(float64)
+					sb.WriteString(strings.Repeat(rn[0].(string), int(n)))
+				}
+				r := c.crd([]string{"info", "key", "conv", "--key", cs(k, "key"), "-c", sb.String()}, nil)
+				out := [][]int{}
+				for _, ln := range strings.Split(strings.TrimRight(string(r.Stdout), "\n"), "\n") {
+					if ln != "" {
+						out = append(out, chars(ln))
+					}
+				}
+				return []Rec{{"kind": "longchain", "sub": fmt.Sprint(cs(k, "key"), k["runs"]), "key": chars(cs(k, "key")), "runs": runs, "terminated": !r.TimedOut,
+					"ok": r.Exit == 0 && len(r.Stdout) > 0 && !r.Panic, "out": out, "stdoutLen": len(r.Stdout), "stderrLen": len(r.Stderr)}}
+			}
 			r := c.crd([]string{"info", "key", "conv", "--key", cs(k, "key"), "-c", cs(k, "chain")}, nil)
 			chain := []string{}
 			for _, x := range cs(k, "chain") {
